@@ -269,7 +269,7 @@ int hx_mode_conc(int argc, char **argv) {
         }
         shared = hx_build_cfg_for(&W[0].c);
         if (shared == NULL) { fprintf(stderr, "cfg build failed\n"); return 2; }
-        shared_tx = W[0].c.cfg[CF_TX_CFG] ? hx_build_cfg_for(&W[0].c) : NULL;
+        shared_tx = W[0].c.cfg[CF_TX_CFG] == 1 ? hx_build_cfg_for(&W[0].c) : NULL;
         uint64_t h0 = hx_cfg_hash(shared) ^ (shared_tx ? hx_cfg_hash(shared_tx) * 31 : 0);
         for (int round = 0; round < rounds; round++) {
             ngroup = g;
